@@ -47,7 +47,13 @@ class RotatedSweepDecoder3D(BaseDecoder):
     ) -> np.ndarray:
         """Get initial cellular automaton state from syndrome."""
         signs = syndrome.copy()
-        signs[self.code.z_indices] = 0
+
+        # Keep the face excitations only. On lattices with a defect line some
+        # faces carry Z on the seam qubits, so they cannot be recognized from
+        # z_indices.
+        for index, location in enumerate(self.code.stabilizer_coordinates):
+            if self.code.stabilizer_type(location) != 'face':
+                signs[index] = 0
 
         return signs
 
@@ -251,6 +257,14 @@ class RotatedSweepDecoder3D(BaseDecoder):
                 (x - 1, y - 1, z),
                 (x - 1, y + 1, z),
                 (x + 1, y - 1, z),
+            ]
+
+        # The rotated toric code is periodic in x and y.
+        if self.code.id == 'RotatedToric3DCode':
+            L_x, L_y, _ = self.code.size
+            faces = [
+                ((f_x - 1) % (2*L_x) + 1, (f_y - 1) % (2*L_y) + 1, f_z)
+                for f_x, f_y, f_z in faces
             ]
 
         # Only keep faces that are actually on the cut lattice.
